@@ -20,7 +20,8 @@ package route
 //     request has a fresh API key; routers with an EnvironmentCacheTTL of
 //     one hour and of one nanosecond, so that a cached environment has or
 //     has not expired by the next lookup), corrupt gzip / zstd
-//     bodies, malformed JSON / msgpack / protobuf, events without fields, and
+//     bodies, malformed JSON / msgpack / protobuf, events without fields, batch
+//     events with a negative samplerate (kind "neg") among valid ones, and
 //     a stub collector that answers collect.ErrWouldBlock for the "full"
 //     events;
 //   - the stub collector and the two recording transmissions report which
@@ -571,7 +572,13 @@ func (q *c23Req) document() (any, error) {
 	case "batch", "peer-batch":
 		evs := []map[string]any{}
 		for n, kind := range q.Shape {
-			evs = append(evs, map[string]any{"samplerate": 1, "data": c23EventData(kind, n+1)})
+			// "neg": an otherwise ordinary span of this node whose envelope carries a
+			// negative sample rate (an individually questionable event among valid ones)
+			rate := 1
+			if kind == "neg" {
+				rate = -1
+			}
+			evs = append(evs, map[string]any{"samplerate": rate, "data": c23EventData(kind, n+1)})
 		}
 		return evs, nil
 	case "otlp-http-traces", "otlp-grpc-traces":
